@@ -75,12 +75,14 @@ fn kind_s(k: Kind) -> &'static str {
         Kind::Direct => "D",
         Kind::InStm => "S",
         Kind::Free => "F",
+        Kind::HidDirect => "H",
     }
 }
 fn form_s(f: Form) -> String {
     match f {
         Form::Classic => "c".into(),
         Form::Stream { flate, w0zero } => format!("s{}{}", if flate { "f" } else { "" }, if w0zero { "z" } else { "" }),
+        Form::Hybrid { flate } => format!("h{}", if flate { "f" } else { "" }),
     }
 }
 pub fn rev_json(r: &RevSpec) -> Value {
@@ -88,7 +90,13 @@ pub fn rev_json(r: &RevSpec) -> Value {
 }
 pub fn rev_from(v: &Value) -> RevSpec {
     let f = v["form"].as_str().unwrap_or("c");
-    let form = if f.starts_with('c') { Form::Classic } else { Form::Stream { flate: f.contains('f'), w0zero: f.contains('z') } };
+    let form = if f.starts_with('c') {
+        Form::Classic
+    } else if f.starts_with('h') {
+        Form::Hybrid { flate: f.contains('f') }
+    } else {
+        Form::Stream { flate: f.contains('f'), w0zero: f.contains('z') }
+    };
     let defs = v["defs"]
         .as_array()
         .unwrap()
@@ -97,6 +105,7 @@ pub fn rev_from(v: &Value) -> RevSpec {
             let k = match d[1].as_str().unwrap() {
                 "D" => Kind::Direct,
                 "S" => Kind::InStm,
+                "H" => Kind::HidDirect,
                 _ => Kind::Free,
             };
             (d[0].as_u64().unwrap() as u32, k)
@@ -249,6 +258,50 @@ pub fn random_history(r: &mut Rng, nobj: u32, k: usize, recovery: bool) -> Vec<R
         .collect()
 }
 
+/// every hybrid update over `objs`: each object absent / Direct / Free (classic section) / InStm /
+/// HidDirect (hidden: listed only in the /XRefStm stream)
+fn hybrid_options(objs: &[u32]) -> Vec<RevSpec> {
+    let kinds = [None, Some(Kind::Direct), Some(Kind::Free), Some(Kind::InStm), Some(Kind::HidDirect)];
+    let total = kinds.len().pow(objs.len() as u32);
+    let mut v = vec![];
+    for code in 1..total {
+        let mut c = code;
+        let mut defs = vec![];
+        for n in objs {
+            if let Some(k) = kinds[c % kinds.len()] {
+                defs.push((*n, k));
+            }
+            c /= kinds.len();
+        }
+        v.push(RevSpec { form: Form::Hybrid { flate: code % 3 == 0 }, defs });
+    }
+    v
+}
+
+/// random history in which about every third revision is a hybrid update
+pub fn random_history_hybrid(r: &mut Rng, nobj: u32, k: usize) -> Vec<RevSpec> {
+    let mut revs = random_history(r, nobj, k, false);
+    let mut any = false;
+    for (i, rev) in revs.iter_mut().enumerate() {
+        if r.chance(1, 3) || (i + 1 == k && !any) {
+            any = true;
+            let flate = r.chance(1, 2);
+            rev.form = Form::Hybrid { flate };
+            for d in rev.defs.iter_mut() {
+                if d.1 == Kind::Direct && r.chance(1, 2) {
+                    d.1 = Kind::HidDirect;
+                }
+            }
+            if !rev.defs.iter().any(|d| matches!(d.1, Kind::InStm | Kind::HidDirect)) {
+                let n = OBJ0 + r.below(nobj as u64) as u32;
+                rev.defs.retain(|d| d.0 != n);
+                rev.defs.push((n, if r.chance(1, 2) { Kind::InStm } else { Kind::HidDirect }));
+            }
+        }
+    }
+    revs
+}
+
 pub fn run(ctx: &Ctx) {
     // wide printing: the driver's result parser does not cope with a failure pair wrapped over two lines
     let header = "From OxVerif Require Import Base.Util C04.Model.\nSet Printing Width 1000000.";
@@ -305,6 +358,56 @@ pub fn run(ctx: &Ctx) {
         let k = r.range(3, 7) as usize;
         let revs = random_history(&mut r, nobj, k, false);
         emit(&mut out, &revs, presets[i % presets.len()], 0, "random_long");
+    }
+    // ---- hybrid-reference files (ISO 32000-1 7.5.8.4): base x hybrid update, hybrid on hybrid,
+    //      hybrid base, ordinary update on a hybrid one; then random histories with hybrid updates
+    {
+        let objs: Vec<u32> = (0..2u32).map(|i| OBJ0 + i).collect();
+        let base = rev_options(&objs, true, false);
+        let hyb = hybrid_options(&objs);
+        let mut rr = r.fork();
+        let den2 = if thorough { 1 } else { 3 };
+        for b in &base {
+            for h in &hyb {
+                if rr.below(den2) != 0 {
+                    continue;
+                }
+                counter += 1;
+                emit(&mut out, &[b.clone(), h.clone()], presets[counter % presets.len()], 0, "hybrid_k2");
+            }
+        }
+        for h in &hyb {
+            counter += 1;
+            emit(&mut out, &[h.clone()], presets[counter % presets.len()], 0, "hybrid_base");
+        }
+        let den3 = if thorough { 12 } else { 120 };
+        for b in &base {
+            for h1 in &hyb {
+                for h2 in &hyb {
+                    if rr.below(den3) != 0 {
+                        continue;
+                    }
+                    counter += 1;
+                    emit(&mut out, &[b.clone(), h1.clone(), h2.clone()], presets[counter % presets.len()], 0, "hybrid_on_hybrid");
+                }
+            }
+        }
+        let on = rev_options(&objs, false, false);
+        for h in &hyb {
+            for n in &on {
+                if rr.below(den2 * 4) != 0 {
+                    continue;
+                }
+                counter += 1;
+                emit(&mut out, &[h.clone(), n.clone()], presets[counter % presets.len()], 0, "update_on_hybrid");
+            }
+        }
+        for i in 0..(if thorough { 600 } else { 120 }) {
+            let nobj = r.range(2, 5) as u32;
+            let k = r.range(2, 6) as usize;
+            let revs = random_history_hybrid(&mut r, nobj, k);
+            emit(&mut out, &revs, presets[i % presets.len()], 0, "hybrid_random");
+        }
     }
     // ---- recovery: cross-reference data damaged, direct redefinitions only
     {
